@@ -4,6 +4,7 @@ lookups of both loaders, used by `Properties/C17.lean` and `Properties/C05.lean`
 -/
 import CassisModel.Model.Xmi
 import CassisModel.Model.Json
+import CassisModel.Proofs.GetTypeExact
 
 namespace Cassis.Xmi
 open Cassis.TS Cassis.Lex
@@ -79,14 +80,14 @@ theorem buildPrimList_noTnf (hp : Heap) (tsIdx : Nat) (rn : String) (elems : Lis
   repeat' notnf_step
 
 theorem parseFsElem_noTnf (K : Consts) (ts : TypeSystem) (tsIdx : Nat) (hp : Heap) (e : XElem) (t : TypeRec)
-    (ht : getType ts e.ty = .ok t) : NoTnf (parseFsElem K ts tsIdx hp e) := by
+    (ht : getTypeExact ts e.ty = .ok t) : NoTnf (parseFsElem K ts tsIdx hp e) := by
   unfold parseFsElem
   rw [ht]
   repeat' (first | exact buildPrimList_noTnf _ _ _ _ | notnf_step)
 
 
 theorem parseFsElem_getType_error (K : Consts) (ts : TypeSystem) (tsIdx : Nat) (hp : Heap) (e : XElem) (err : Err)
-    (ht : getType ts e.ty = .error err) : parseFsElem K ts tsIdx hp e = .error err := by
+    (ht : getTypeExact ts e.ty = .error err) : parseFsElem K ts tsIdx hp e = .error err := by
   simp only [parseFsElem, bind, Except.bind]
   rw [ht]
 
@@ -104,7 +105,7 @@ theorem getType_error (ts : TypeSystem) (n : String) (err : Err) (h : getType ts
 /-! ### one step of the first pass -/
 
 def knownElemL (ts : TypeSystem) (e : XElem) : Bool :=
-  e.ty == SOFA || e.ty == VIEW_T || (match getType ts e.ty with | .ok _ => true | .error _ => false)
+  e.ty == SOFA || e.ty == VIEW_T || (find? ts e.ty).isSome
 
 def lenIds (e : XElem) : List Int := match (attr e ID).bind parseInt with | some i => [i] | none => []
 
@@ -156,13 +157,12 @@ theorem step1_unknown (K : Consts) (ts : TypeSystem) (tsIdx : Nat) (b : Bool) (e
   obtain ⟨⟨h1, h2⟩, h3⟩ := hu
   unfold step1
   simp only [h1, h2, Bool.false_eq_true, if_false]
-  cases hg : getType ts e.ty with
-  | ok t => rw [hg] at h3; cases h3
-  | error err =>
-    have := getType_error ts e.ty err hg
-    subst this
-    rw [parseFsElem_getType_error K ts tsIdx s.heap e _ hg]
-    rfl
+  have hf : find? ts e.ty = none := by
+    cases hf : find? ts e.ty with
+    | none => rfl
+    | some t => rw [hf] at h3; cases h3
+  rw [parseFsElem_getType_error K ts tsIdx s.heap e _ (getTypeExact_of_find_none hf)]
+  rfl
 
 theorem step1_known (K : Consts) (ts : TypeSystem) (tsIdx : Nat) (b b' : Bool) (e : XElem) (s : Pass1) (l : List Int)
     (hk : knownElemL ts e = true) :
@@ -178,9 +178,10 @@ theorem step1_known (K : Consts) (ts : TypeSystem) (tsIdx : Nat) (b b' : Bool) (
       rw [Bool.not_eq_true] at h1 h2
       simp only [h1, h2, Bool.false_or] at hk
       simp only [h1, h2, Bool.false_eq_true, if_false]
-      cases hg : getType ts e.ty with
-      | error err => rw [hg] at hk; cases hk
-      | ok t =>
+      cases hf : find? ts e.ty with
+      | none => rw [hf] at hk; cases hk
+      | some t =>
+        have hg := getTypeExact_of_find hf
         have hn := (parseFsElem_noTnf K ts tsIdx s.heap e t hg).ne
         show (match parseFsElem K ts tsIdx s.heap e with | .ok (hp, i, a) => _ | .error .typeNotFound => _ | .error err => _) = _
         cases hp : parseFsElem K ts tsIdx s.heap e with
